@@ -235,6 +235,9 @@ pub enum TyperError {
     /// assert_eval failed value equality
     AssertEvalFailed(SourceLocation, ir::Constant, ir::Constant),
 
+    /// Another pipeline definition already uses the name
+    PipelineAlreadyDefined(SourceLocation),
+
     /// No stages were declared for a pipeline definition
     PipelineNoEntryPoint(SourceLocation),
 
@@ -1068,6 +1071,11 @@ impl CompileError for TyperExternalError {
                         "expected value '{expected:?}' but received value '{received:?}'"
                     )
                 },
+                *loc,
+                Severity::Error,
+            ),
+            TyperError::PipelineAlreadyDefined(loc) => w.write_message(
+                &|f| write!(f, "pipeline with the same name is already defined"),
                 *loc,
                 Severity::Error,
             ),
